@@ -213,6 +213,13 @@ def reader_table(program) -> Dict[str, dict]:
     markers: Dict[str, dict] = {}
     for fname in ('_parse_sequence_start', '_parse_sequence_middle', '_parse_sequence_end'):
         f = reader_func(program, fname)
+        # where the '?' flag of an interval lives: whatever is handed to Interval(ambiguous=...)
+        amb_expr = 'dummy_interval[2]'
+        for c_ in ast.walk(f.node):
+            if isinstance(c_, ast.Call) and isinstance(c_.func, ast.Name) and c_.func.id == 'Interval':
+                for kw in c_.keywords:
+                    if kw.arg == 'ambiguous':
+                        amb_expr = norm_stmt(kw.value)
 
         def visit(block, conds: List[Tuple[str, str]], defs: Dict[str, Tuple[str, str]], extra: List[str]):
             defs = dict(defs)
@@ -233,9 +240,8 @@ def reader_table(program) -> Dict[str, dict]:
                     if isinstance(st.targets[0], ast.Attribute) and st.targets[0].attr == '_charge':
                         markers['charge'] = {'conds': list(conds), 'loc': f.loc(st),
                                              'integer': '_parse_integer' in norm_stmt(st.value)}
-                    if isinstance(st.targets[0], ast.Subscript) and norm_stmt(st.targets[0].value) == 'dummy_interval' \
-                            and isinstance(st.targets[0].slice, ast.Constant) and st.targets[0].slice.value == 2 and \
-                            isinstance(st.value, ast.Constant) and st.value.value is True:
+                    if norm_stmt(st.targets[0]) == amb_expr and isinstance(st.value, ast.Constant) and \
+                            st.value.value is True:
                         markers['ambiguous'] = {'conds': list(conds), 'loc': f.loc(st)}
                     if isinstance(st.targets[0], ast.Name) and st.targets[0].id == 'dummy_interval' and \
                             isinstance(st.value, (ast.List, ast.Tuple)):
@@ -491,6 +497,43 @@ def value_text(ctx, rep, clause):
        f'value', f.loc(bad[0]) if bad else f.loc(), clause)
 
 
+def interval_state(ctx, rep, clause):
+    """everything handed to Interval(...) by the parser is state of *that* interval: it lives in the record that is
+    created anew at every `(`, or in a local that is bound anew at every `(` -- a local set once before the scanning
+    loop carries the `?` flag (or the modifications) of one interval over to the next"""
+    program = ctx.program
+    f = reader_func(program, '_parse_sequence_middle')
+    ctor = None
+    for c_ in ast.walk(f.node):
+        if isinstance(c_, ast.Call) and isinstance(c_.func, ast.Name) and c_.func.id == 'Interval':
+            ctor = c_
+    if ctor is None:
+        raise AnalysisError('_parse_sequence_middle: Interval(...) construction not found')
+    # the branch that opens an interval: where the record is created from a list/tuple display
+    open_body = None
+    for x in ast.walk(f.node):
+        if isinstance(x, ast.If) and any(isinstance(st, ast.Assign) and norm_stmt(st.targets[0]) == 'dummy_interval' and
+                                         isinstance(st.value, (ast.List, ast.Tuple)) for st in x.body):
+            open_body = x.body
+    if open_body is None:
+        raise AnalysisError('_parse_sequence_middle: the branch that opens an interval was not found')
+    c = Canon(f.node)
+    for kw in ctor.keywords:
+        names = {y.id for y in ast.walk(kw.value) if isinstance(y, ast.Name) and c.is_local(y.id)} - {'dummy_interval'}
+        for name in sorted(names):
+            fresh = any(isinstance(st, ast.Assign) and any(isinstance(t, ast.Name) and t.id == name or
+                                                           (isinstance(t, ast.Tuple) and any(isinstance(e_, ast.Name) and e_.id == name for e_ in t.elts))
+                                                           for t in st.targets) for st in open_body)
+            ob(rep, 'FLD', f.fq, f'Interval({kw.arg}=...) is state of the interval being closed', fresh,
+               'bound anew when the interval opens',
+               f'`{kw.arg}={norm_stmt(kw.value)}` reads the local `{name}`, which is not bound anew when an interval '
+               f'opens: its value from an earlier interval is still there (`PE(?PT)ID(EK)R`: the second interval comes '
+               f'out ambiguous too)', f.loc(ctor), clause)
+        if not names:
+            rep.ob('FLD', f'{f.fq} :: Interval({kw.arg}=...) comes from the per-interval record', f.loc(ctor), True,
+                   norm_stmt(kw.value), True, clause)
+
+
 def marker_order(ctx, rep, clause):
     """at one boundary every closing marker precedes every opening marker, whatever the order of the interval list
     (reverse() leaves the list in descending order): one loop over the intervals must not emit both"""
@@ -586,3 +629,4 @@ def check(ctx, rep):
     from .common import value_preserving_rule
     value_preserving_rule(ctx, rep, 'C01a', ('peptacular.proforma.proforma_dataclasses', 'peptacular.proforma.proforma_parser', 'peptacular.proforma.input_convert'))
     index_kinds(ctx, rep, 'C01d')
+    interval_state(ctx, rep, 'C01b')
